@@ -3,14 +3,25 @@
 (* call under test.  A history is a poison pattern for freshly allocated numpy *)
 (* memory (0xFF.. = NaN, 0x7F.. = 1.4e306, 0 = zero pages of a fresh process),  *)
 (* up to two earlier calls from a "dirtying" routine alphabet (whose results are*)
-(* freed before the call under test), and an OpenMP thread count.  TLC          *)
-(* enumerates them; the driver replays each under the poisoning allocator.      *)
+(* freed before the call under test), and an OpenMP thread count.  A call is a  *)
+(* routine of the alphabet (harness/purity_routines.py) with one of its         *)
+(* argument sets.  The behaviours of the dynamic half are the product           *)
+(*     Calls \X Histories                                                       *)
+(* TLC enumerates the two factors (HInit: the histories, CInit: the calls);     *)
+(* the driver replays, under the poisoning allocator, for EVERY call the        *)
+(* mandatory histories (NaN pattern, no prior call, 1 and 16 threads) and a     *)
+(* seed-rotated section of the remaining product (the full product of the       *)
+(* widened alphabet, ~1700 calls x ~4100 histories, is not replayable).         *)
 EXTENDS Integers, Sequences, TLC, Json
-CONSTANTS NRoutines, NDirty, NArgsets
+CONSTANTS NRoutines, NDirty, NArgsets, NPriorArgsets
 VARIABLES h
-HInit == h \in [routine : 1..NRoutines, argset : 1..NArgsets,
-                prior : UNION {[1..n -> (1..NDirty) \X (1..NArgsets)] : n \in 0..2},
-                byte : {255, 127, 0}, threads : {1, 2, 4, 16}]
+Histories == [prior : UNION {[1..n -> (1..NDirty) \X (1..NPriorArgsets)] : n \in 0..2},
+              byte : {255, 127, 0}, threads : {1, 2, 4, 16}]
+Calls == [routine : 1..NRoutines, argset : 1..NArgsets]
+HInit == h \in Histories
+CInit == h \in Calls
 HNext == UNCHANGED h
+Mandatory(x) == x.prior = <<>> /\ x.byte = 255 /\ x.threads \in {1, 16}
 EmitHist == PrintT(<<"CASE", ToJson(h)>>)
+EmitCall == PrintT(<<"CALL", ToJson(h)>>)
 =============================================================================
